@@ -182,7 +182,12 @@ type yangMetaStack struct {
 }
 
 func (s *yangMetaStack) push(def interface{}) interface{} {
-	s.defs[s.count] = def
+	if s.count == len(s.defs) {
+		// nested deeper than the initial size
+		s.defs = append(s.defs, def)
+	} else {
+		s.defs[s.count] = def
+	}
 	s.count++
 	return def
 }
